@@ -238,9 +238,9 @@ Proof.
 Qed.
 
 (* ---- length / separator / brackets ---- *)
-Lemma length_refines l : l <> VNull -> f_length l = ROk (sp_length l).
+Lemma length_refines l : f_length l = ROk (sp_length l).
 Proof.
-  destruct l as [b u sh|s|b| |items s b|[|kv r]|p]; intros H; try reflexivity; [congruence|].
+  destruct l as [b u sh|s|b| |items s b|[|kv r]|p]; try reflexivity.
   unfold f_length, sp_length. cbn [as_list l_items]. now rewrite map_length.
 Qed.
 
@@ -318,7 +318,4 @@ Qed.
 Lemma refuted_index_arglist :
   f_index (VArgs [v_int 1; v_int 2; v_int 3]) (v_int 2) = ROk VNull /\
   sp_index (VArgs [v_int 1; v_int 2; v_int 3]) (v_int 2) = v_int 2.
-Proof. split; vm_compute; reflexivity. Qed.
-
-Lemma refuted_length_null : f_length VNull = ROk (v_int 0) /\ sp_length VNull = v_int 1.
 Proof. split; vm_compute; reflexivity. Qed.
